@@ -19,7 +19,7 @@
 (* behaviour of its program.  Verdicts are total: a mismatch ends the       *)
 (* record with a printed reason and TLC goes on with the next record.       *)
 (***************************************************************************)
-EXTENDS Units, TimePattern, FiniteSets, TLC, TLCExt, Json, IOUtils
+EXTENDS Registers, TimePattern, FiniteSets, TLC, TLCExt, Json, IOUtils
 
 Batch == JsonDeserialize(IOEnv.VERIF_BATCH)
 
@@ -37,30 +37,11 @@ Pop(s) == SubSeq(s, 1, Len(s) - 1)
 Pop2(s) == SubSeq(s, 1, Len(s) - 2)
 ReplaceTop(s, f) == [s EXCEPT ![Len(s)] = f]
 
-(***************************************************************************)
-(* Values                                                                    *)
-(***************************************************************************)
-NumV(q, f) == [k |-> "num", q |-> q, f |-> f]
-IntV(n) == NumV(I(n), FALSE)
-StrV(s) == [k |-> "str", s |-> s]
-BoolV(b) == [k |-> "bool", b |-> b]
-NoneV == [k |-> "none"]
-PatV(m) == [k |-> "pat", m |-> m]
-HaltV == [k |-> "halt"]           \* division by zero
-BigV == [k |-> "big"]             \* does not fit the 32-bit arithmetic of the checker
-IsNum(v) == v.k = "num"
-Bad(v) == v.k \in {"halt", "big"}
-Wrap(q, f) == IF IsOvf(q) THEN BigV ELSE NumV(q, f)
-
 \* literal as it comes from JSON
 Lit(v) == CASE v.k = "num" -> NumV(<<v.q[1], v.q[2]>>, v.f)
             [] v.k = "pat" -> PatV(MinutesAny(v.ps))
             [] OTHER -> v
 
-Truthy(v) == CASE v.k = "bool" -> v.b
-               [] v.k = "num" -> ~IsZero(v.q)
-               [] v.k = "str" -> v.s # ""
-               [] OTHER -> FALSE
 
 (***************************************************************************)
 (* Scopes (C03): lookup = parameters, then locals, then globals;            *)
@@ -144,72 +125,6 @@ RunRpn(code, i, stk) ==
                                  IN  IF Bad(r) THEN [i |-> i, stk |-> stk, bad |-> r]
                                      ELSE RunRpn(code, i + 1, Append(Pop(stk), r))
                [] it.t = "call" -> [i |-> i, stk |-> stk, bad |-> NoneV]
-
-(***************************************************************************)
-(* Registers and units                                                       *)
-(***************************************************************************)
-Reg0 == [hue |-> IntV(0), saturation |-> IntV(0), brightness |-> IntV(0), kelvin |-> IntV(0),
-         red |-> IntV(0), green |-> IntV(0), blue |-> IntV(0), duration |-> IntV(0), time |-> IntV(0),
-         mode |-> "logical", dflt |-> <<>>]
-
-ColourRegs(r) == IF r.mode = "rgb" THEN <<r.red, r.green, r.blue, r.kelvin>>
-                 ELSE <<r.hue, r.saturation, r.brightness, r.kelvin>>
-AllNum(c) == \A i \in DOMAIN c : IsNum(c[i])
-Qs(c) == [i \in DOMAIN c |-> c[i].q]
-\* exact raw colour the registers denote now (4 rationals, possibly poisoned)
-RawNow(r) == RawColour(r.mode, Qs(ColourRegs(r)))
-TameQ(q) == Good(q) /\ q[2] <= 2000000
-TameC(c) == \A i \in DOMAIN c : TameQ(c[i])
-\* exact duration / delay in milliseconds (rational)
-MsNow(r) == IF r.mode = "raw" THEN r.duration.q ELSE Mul(r.duration.q, I(1000))
-DelayUs(r) == IF r.mode = "raw" THEN Mul(r.time.q, I(1000)) ELSE Mul(r.time.q, I(1000000))
-
-\* colour read from a light (raw integers) expressed in the current units
-FromRaw(mode, c) ==
-    IF mode = "raw" THEN [i \in 1..4 |-> IntV(c[i])]
-    ELSE IF mode = "logical"
-         THEN <<Wrap(HueDeg(I(c[1])), TRUE), Wrap(PctOf(I(c[2])), TRUE), Wrap(PctOf(I(c[3])), TRUE), NumV(I(c[4]), TRUE)>>
-    ELSE LET rgb == HsvToRgb(<<c[1], MaxRaw>>, <<c[2], MaxRaw>>, <<c[3], MaxRaw>>)
-         IN  <<Wrap(Mul(rgb[1], I(100)), TRUE), Wrap(Mul(rgb[2], I(100)), TRUE),
-               Wrap(Mul(rgb[3], I(100)), TRUE), NumV(I(c[4]), TRUE)>>
-
-StoreColour(r, c) == IF r.mode = "rgb" THEN [r EXCEPT !.red = c[1], !.green = c[2], !.blue = c[3], !.kelvin = c[4]]
-                     ELSE [r EXCEPT !.hue = c[1], !.saturation = c[2], !.brightness = c[3], !.kelvin = c[4]]
-
-\* rgb percentages outside 0..100 denote no colour; what is transmitted for them is not demanded
-ColourDenoted(r) == r.mode # "rgb" \/ ValidRgb(Qs(ColourRegs(r)))
-\* the ranges the manual documents for the colour settings of the mode in force (C14's domain)
-Within(q, lo, hi) == Le(I(lo), q) /\ Le(q, I(hi))
-InDocumentedRange(r) ==
-    LET c == Qs(ColourRegs(r))
-    IN  CASE r.mode = "rgb" -> ValidRgb(c)
-          [] r.mode = "logical" -> Within(c[2], 0, 100) /\ Within(c[3], 0, 100)
-          [] OTHER -> \A j \in 1..3 : Within(c[j], 0, MaxRaw)
-RegOk(r) == /\ AllNum(<<r.hue, r.saturation, r.brightness, r.kelvin, r.red, r.green, r.blue, r.duration>>)
-            /\ (IsNum(r.time) \/ r.time.k = "pat")
-
-\* `units m`: re-express the settings listed in "Changed When Switching Units Mode"
-ScaleTime(v, num, den) == IF IsNum(v) THEN Wrap(Mul(v.q, <<num, den>>), v.f \/ den > 1) ELSE v
-SwitchUnits(r, to) ==
-    IF r.mode = to THEN r
-    ELSE LET from == r.mode
-             c    == Qs(ColourRegs(r))
-             fl   == to # "raw"
-             newc == IF to = "raw" THEN RawColour(from, c)
-                     ELSE IF to = "logical"
-                          THEN (IF from = "raw" THEN <<HueDeg(c[1]), PctOf(c[2]), PctOf(c[3])>>
-                                ELSE LET hsv == RgbToHsv(Frac(c[1]), Frac(c[2]), Frac(c[3]))
-                                     IN  <<Mul(hsv[1], I(360)), Mul(hsv[2], I(100)), Mul(hsv[3], I(100))>>)
-                     ELSE LET hsv == IF from = "raw" THEN <<Div(c[1], I(MaxRaw)), Div(c[2], I(MaxRaw)), Div(c[3], I(MaxRaw))>>
-                                     ELSE <<Div(Mod(c[1], I(360)), I(360)), Frac(c[2]), Frac(c[3])>>
-                              rgb == HsvToRgb(hsv[1], hsv[2], hsv[3])
-                          IN  <<Mul(rgb[1], I(100)), Mul(rgb[2], I(100)), Mul(rgb[3], I(100))>>
-             r1   == [r EXCEPT !.mode = to]
-             r2   == IF to = "rgb" THEN [r1 EXCEPT !.red = Wrap(newc[1], fl), !.green = Wrap(newc[2], fl), !.blue = Wrap(newc[3], fl)]
-                     ELSE [r1 EXCEPT !.hue = Wrap(newc[1], fl), !.saturation = Wrap(newc[2], fl), !.brightness = Wrap(newc[3], fl)]
-         IN  IF to = "raw" THEN [r2 EXCEPT !.time = ScaleTime(@, 1000, 1), !.duration = ScaleTime(@, 1000, 1)]
-             ELSE IF from = "raw" THEN [r2 EXCEPT !.time = ScaleTime(@, 1, 1000), !.duration = ScaleTime(@, 1, 1000)]
-             ELSE r2
 
 (***************************************************************************)
 (* The light directory as a script sees it (names in code-point order are   *)
@@ -303,11 +218,17 @@ RectSane(rc, h, w) == /\ 0 <= rc.r1 /\ rc.r1 <= rc.r2 /\ rc.r2 < h
 ColOk(c, raw) == \A j \in 1..4 : Sent16(c[j], raw[j])
 MsOk(ms, q) == NearInt(ms, ClampQ(q, 0, MaxInt))
 UsOk(us, q) == us \in (Floor(q) - 1)..(Floor(q) + 2)
+\* m / s (a decimal mantissa and its scale, as logged) is the rational q to within 2 units of the last
+\* logged digit; if q * s does not fit 32 bits the comparison drops digits until it does.
+RECURSIVE NumClose(_, _, _)
+NumClose(q, m, s) == LET p == Mul(q, I(s))
+                     IN  IF Good(p) THEN m \in (Floor(p) - 2)..(Floor(p) + 2)
+                         ELSE IF s >= 10 THEN NumClose(q, m \div 10, s \div 10)
+                         ELSE FALSE
 OutOk(x, v) ==
     CASE x.k = "num" -> /\ v.k = "num"
                         /\ (R.strictf => v.f = x.f)
-                        /\ LET s == Mul(x.q, I(v.s))
-                           IN  Good(s) /\ v.m \in (Floor(s) - 1)..(Floor(s) + 2)
+                        /\ NumClose(x.q, v.m, v.s)
       [] x.k = "str" -> v.k = "str" /\ v.s = x.s
       [] x.k = "bool" -> v.k = "bool" /\ v.b = x.b
       [] x.k = "none" -> v.k = "none"
